@@ -517,13 +517,16 @@ def accuracy_general(req, impl):
     bad, r_res, msg = residual(abits, n, lam, vs, tol)
     if bad:
         if half in ("nsym", "gen", "nsymbig") and same_pair(lam, vs, replica(abits, n, tol)):
-            return None, (r_res, None)     # the documented method itself stops early here: not judged
+            # the documented method itself stops early here: a genuine limit of the stopping rule, reported
+            # as its own class (known finding F-C13-coincidence), so that any other violation stays visible
+            return "the documented method itself stops early (successive Rayleigh quotients agree by coincidence): " + msg, (r_res, None)
         return msg, (r_res, None)
     if ref is not None:
         err = abs(lam - l1)
         bound = C * math.sqrt(tol) * abs(l1)
         if err > bound and same_pair(lam, vs, replica(abits, n, tol)):
-            return None, (r_res, err / bound)
+            return ("the documented method itself stops early (successive Rayleigh quotients agree by coincidence): eigenvalue %.17g is %.3e from the dominant eigenvalue %.17g (tol %.1e)"
+                    % (lam, err, l1, tol)), (r_res, err / bound)
         if err > bound:
             return ("eigenvalue %.17g is %.3e from the dominant eigenvalue %.17g, more than C·√tol·|λ₁| = %.3e (tol %.1e)"
                     % (lam, err, l1, bound, tol)), (r_res, err / bound)
